@@ -287,6 +287,13 @@ def modelcheck(kripke, formula, parser=None, F=None):
             parser = Parser()
         formula = parser(formula)
 
+    if isinstance(formula, CTLS.Formula) and not isinstance(formula, Formula):
+        try:
+            formula = formula.cast_to(sys.modules[__name__])
+        except Exception:
+            raise TypeError('expected a LTL state formula, ' +
+                            'got {}'.format(formula))
+
     if not (isinstance(formula, CTLS.A)):
         raise TypeError('expected a LTL state formula, got {}'.format(formula))
 
